@@ -347,8 +347,9 @@ def extent_rules(chk, cr, q, ev, resolver, helper=False):
             while a:
                 if a[0] == "sub" and len(a[2]) == 1 and a[2][0].as_atom() and a[2][0].as_atom()[0] == "lv":
                     t = a[1]
-                elif a[0] == "call" and call_name(a) in ("numpy.asarray", "numpy.array", "numpy.atleast_2d") and a[2]:
-                    t = a[2][0]
+                elif a[0] == "call" and call_name(a) in ("numpy.asarray", "numpy.array", "numpy.atleast_2d", "numpy.max", "numpy.min", "numpy.amax",
+                                                         "numpy.amin") and a[2]:
+                    t = a[2][0]          # a copy / the extreme coordinates over the same set of points
                 else:
                     break
                 a = t.as_atom()
@@ -360,6 +361,8 @@ def extent_rules(chk, cr, q, ev, resolver, helper=False):
             a = t.as_atom()
             if a and a[0] == "call" and call_name(a) in (".to_fractional", ".to_cartesian") and a[2]:
                 return ("cart" if call_name(a) == ".to_fractional" else "frac"), strip_idx(a[2][0])
+            if a and a[0] == "call" and call_name(a) in (".max", ".min") and not a[2]:
+                return point_id(a[1].as_atom()[1], frac)
             return ("frac" if frac else "cart"), t
         balls = [e.extra["args"][0] for e in ev.events if e.kind == "call" and call_name(e.value.as_atom() or ()) == ".query_ball_point"
                  and e.extra.get("args") and "KDTree" in e.target.key()]
